@@ -246,6 +246,20 @@ class Engine(Evaluator):
                 finally:
                     del st.pc[save]
                 return VBool(z3.Implies(a, b))
+        # super(Cls, self).__init__(...) / super().__init__(...)
+        if isinstance(node.func, ast.Attribute) and isinstance(node.func.value, ast.Call) and isinstance(node.func.value.func, ast.Name) \
+                and node.func.value.func.id == 'super':
+            cls = self.cur.qual.split('.')[0]
+            cfile = (CLASSES.get(cls) or {}).get('file') or self.cur.file
+            bases = front.class_bases(cfile, cls)
+            base = bases[0] if bases else 'object'
+            cands = [c for c in BY_NAME.get('%s.%s' % (base, node.func.attr), []) if c.qual == '%s.%s' % (base, node.func.attr)]
+            if cands:
+                args = [self.ev(a, st) for a in node.args]
+                return self.apply_contract(self.pick_variant(cands, [st.env['self']] + args, {}, st), [st.env['self']] + args, {}, st, node)
+            if base == 'object':
+                return VNone()      # object.__init__: no effect
+            raise Unsupported('super().%s of %s without a contract for %s.%s' % (node.func.attr, cls, base, node.func.attr))
         f = self.ev(node.func, st)
         args = []
         for a in node.args:
